@@ -73,4 +73,8 @@ def undo (st : Irr) (r : Rec) : Irr :=
 def rollbackTo (h : Hist) (height : Nat) : Hist :=
   { st := (h.recs.filter (·.height > height)).foldl undo h.st, recs := h.recs.filter (·.height ≤ height) }
 
+/-- restart from a checkpoint: the key frame (all four fields) is serialised and read back, the History is
+    not part of a checkpoint -/
+def reload (h : Hist) : Hist := { st := h.st, recs := [] }
+
 end ElaVerif.Irr
